@@ -1,5 +1,6 @@
 import Gopki.Model.Db
 import Gopki.Lemmas.B64Round
+import Gopki.Lemmas.CertRound
 /-! # C06 — extension list, criticality and raw values reach the certificate unchanged -/
 namespace C06
 open Gen Config
@@ -58,5 +59,12 @@ theorem C06_raw_handler (e : V1.Ext) (oid : Oid) (b : Der.Bytes) (hraw : e.raw.i
 /-- `!null` and `!empty` -/
 theorem C06_null_empty : V1.readRawString "!null" = .ok [5, 0] ∧ V1.readRawString "!empty" = .ok [] := by
   constructor <;> rfl
+
+/-- **the extension list in the encoded certificate is the body's**: same length, same order, each with its OID, its
+    critical flag and its value byte for byte — for extension lists of any length and values of any content -/
+theorem C06_extensions_reach_the_der (t : Gen.Tbs) (v : Der.Tlv) (h : Gen.tbsTlv t = .ok v) (ht : CertWf.TbsOk t) :
+    ∃ r, X509.decTbs v = some r ∧ r.extensions = t.exts.map CertRound.specExt := by
+  obtain ⟨r, _, _, hr, _, hf⟩ := CertRound.decTbs_tbsTlv t v h ht
+  exact ⟨r, hr, hf.extensions⟩
 
 end C06
